@@ -63,6 +63,8 @@ class Ctx:
         self.params = params          # kinds of the enclosing macro definition's parameters (None at a call site)
         self.bare_args = bare_args    # print expr arguments of macro invocations without the outer parentheses
         self.usize = usize if usize is not None else set()   # variables bound by `count`
+        self.blk = False              # inside a macro definition: write every other read of a macro-local variable as `{ let v = v.clone(); v }`
+        self.blk_n = 0
 
     def var(self, v):
         if isinstance(v, tuple): return f"$p{v[1]}"
@@ -77,6 +79,9 @@ def s_ex(e, cx):
         v = e[1]
         if isinstance(v, tuple) and cx.params and cx.params[v[1]] == "expr": return f"$p{v[1]}"      # pasted as is
         if v in cx.usize: return f"({cx.var(v)}.clone() as {cx.nm.ity})"
+        if cx.blk and cx.params is not None and isinstance(v, int):
+            cx.blk_n += 1
+            if cx.blk_n % 2 == 1: return f"{{ let {cx.var(v)} = {cx.var(v)}.clone(); {cx.var(v)} }}"
         return f"{cx.var(v)}.clone()"
     if e[0] == "somex": return f"Some({s_ex(e[1], cx)})"
     a, b = s_ex(e[1], cx), s_ex(e[2], cx)
@@ -172,6 +177,7 @@ def s_rule(r, nm=None, bare_args=False):
 
 def s_macro(i, m, nm=None):
     cx = Ctx(nm, params=m["params"])
+    cx.blk = bool(m.get("blk"))
     ps = ", ".join(f"$p{j}: {k}" for j, k in enumerate(m["params"]))
     if "heads" in m: inner = ", ".join(s_head(h, cx) for h in m["heads"])
     else: inner = ", ".join(s_item(it, cx) for it in m["body"])
